@@ -227,6 +227,9 @@ def interpret(h):
             for r, b in targets:
                 for e in range(4):
                     _add(g, "t%s%s.%s" % (m, ENTRY[e], b), "t", r, None, [(b, "id", (e, m, DIFF_VALUES[e]))])
+                # the smallest difference the glyf format can store: one F2Dot14 step (2**-14)
+                _add(g, "u%sxx.%s" % (m, b), "t", r, None, [(b, "id", (0, m, 1 + 2.0 ** -14))])
+                _add(g, "u%syy.%s" % (m, b), "t", r, None, [(b, "id", (3, m, 1 - 2.0 ** -14))])
         elif op == "dflip":
             # the determinant of the component's 2x2 changes sign in master 0 only
             for r, b in enumerate(REP):
